@@ -1,6 +1,7 @@
 package harness
 
 import (
+	"time"
 	"crypto/sha256"
 	"encoding/hex"
 	"fmt"
@@ -42,6 +43,48 @@ func init() {
 	register(&Family{Name: "qid", Gen: genQid, Run: runQid, Setup: setupAbi})
 	register(&Family{Name: "wvalue", Gen: genWvalue, Run: runWvalue, Setup: setupAbi})
 	register(&Family{Name: "sigconv", Gen: genSigconv, Run: runSigconv})
+	register(&Family{Name: "vparams", Gen: genVparams, Run: runVparams, Setup: setupAbi})
+}
+
+// vparams: the real SetBridgeValidatorParams on a generated bridge validator set at a generated block time; observed are the stored
+// checkpoint parameters (threshold, timestamp, validator-set hash, checkpoint)
+func genVparams(r *Rng, i int, tier string) []string {
+	n := 1 + r.Intn(7)
+	if r.Chance(1, 10) {
+		n = 1 + r.Intn(100)
+	}
+	var vs []string
+	for j := 0; j < n; j++ {
+		pw := uint64(1 + r.Intn(20))
+		switch r.Intn(6) {
+		case 0:
+			pw = uint64(r.Range(1, 1e9))
+		case 1:
+			pw = (r.U64() >> uint(3+r.Intn(55))) + 1 // up to 2^61 / n: the total stays below 2^62
+			if n > 1 {
+				pw = pw/uint64(n) + 1
+			}
+		}
+		vs = append(vs, fmt.Sprintf("%s:%d", hex.EncodeToString(rndBytes(r, 20)), pw))
+	}
+	ts := uint64(1700000000000) + uint64(i)*1000 + uint64(r.Intn(1000))
+	if r.Chance(1, 8) {
+		ts = rndU64(r) >> 1
+	}
+	return []string{strings.Join(vs, ","), fmt.Sprint(ts)}
+}
+
+func runVparams(t *testing.T, in []string) string {
+	ts, _ := strconv.ParseUint(in[1], 10, 64)
+	ctx := abiCtx.WithBlockTime(time.UnixMilli(int64(ts)))
+	if err := abiK.SetBridgeValidatorParams(ctx, parseValset(in[0])); err != nil {
+		return "err:" + shortLog(err.Error())
+	}
+	p, err := abiK.ValidatorCheckpointParamsMap.Get(ctx, ts)
+	if err != nil {
+		return "err:noparams"
+	}
+	return fmt.Sprintf("%d:%d:%s:%s", p.PowerThreshold, p.Timestamp, hex.EncodeToString(p.ValsetHash), hex.EncodeToString(p.Checkpoint))
 }
 
 func rndBytes(r *Rng, n int) []byte {
